@@ -10,6 +10,7 @@ output: per op  `<result> ~ <object shadows> ~ <all radios> ~ <new air records>`
 -/
 import NrfModel.Drv.Util
 import NrfModel.Rf24
+import NrfModel.BleDev
 
 namespace Nrf.Drv
 open Nrf
@@ -43,6 +44,7 @@ def showAir (a : AirRec) : String := s!"{a.sender}>{showPacket a.pkt}x{a.attempt
 
 inductive Obj where
   | rf (d : Rf24)
+  | ble (b : BleDev)
   deriving Repr, Inhabited
 
 structure Sess where
@@ -194,8 +196,39 @@ def parseFaults (s : String) : Option (List Outcome) :=
     if c = 'D' then some .delivered else if c = 'L' then some .packetLost
     else if c = 'A' then some .ackLost else none
 
+def showBle (b : BleDev) : String := showRf24 b.rf ++ s!" cf={b.currFreq}"
+
 def showObj : Obj → String
   | .rf d => showRf24 d
+  | .ble b => showBle b
+
+def runB {α} (b : BleDev) (w : World) (m : BleM α) (sh : α → String) : String × BleDev × World :=
+  let (r, s) := (m.run).run { b := b, w := w }
+  (match r with | .ok a => sh a | .error e => "exc=" ++ e.name, s.b, s.w)
+
+/-- method calls on a FakeBLE object: its own overrides first, everything else is `RF24`'s -/
+def bleCall (b : BleDev) (w : World) (toks : List String) : Option (String × BleDev × World) :=
+  let notImpl : Option (String × BleDev × World) := some ("exc=NotImplementedError", b, w)
+  match toks with
+  | ["set", "channel", a] => do let a ← parseInt a; some (runB b w (BleDev.setChannel a) sUnit)
+  | ["hop_channel"] => some (runB b w BleDev.hopChannel sUnit)
+  | ["enter"] => some (runB b w BleDev.enter sUnit)
+  | ["exit"] => some (runB b w BleDev.exit sUnit)
+  | ["set_auto_ack", _, p] => do let p ← parseOptInt p; some (runB b w (BleDev.setAutoAck p) sUnit)
+  | ["set_dynamic_payloads", _, p] => do let p ← parseOptInt p; some (runB b w (BleDev.setDynamicPayloads p) sUnit)
+  | ["load_ack", buf, p] => do
+    let bb ← unhex buf; let p ← parseInt p; some (runB b w (BleDev.loadAck bb p) sBool)
+  | ["set", "dynamic_payloads", _] => notImpl
+  | ["set", "data_rate", _] => notImpl
+  | ["set", "address_length", _] => notImpl
+  | ["set", "auto_ack", _] => notImpl
+  | ["set", "ack", _] => notImpl
+  | ["set", "crc", _] => notImpl
+  | ["open_rx_pipe", _, _] => notImpl
+  | ["open_tx_pipe", _] => notImpl
+  | _ => do
+    let (res, d', w') ← rf24Call b.rf w toks
+    some (res, { b with rf := d' }, w')
 
 def sessStep (s : Sess) (toks : List String) : Option (String × Sess) :=
   match toks with
@@ -203,6 +236,10 @@ def sessStep (s : Sess) (toks : List String) : Option (String × Sess) :=
     let rid ← parseNat rid
     let (res, d, w) := runD { rid := rid } s.w Rf24.init sUnit
     some (res ++ " ~ " ++ showRf24 d, { s with w := w, objs := (name, .rf d) :: s.objs.filter (·.1 ≠ name) })
+  | ["new", name, "ble", rid] => do
+    let rid ← parseNat rid
+    let (res, b, w) := runB { rf := { rid := rid } } s.w BleDev.init sUnit
+    some (res ++ " ~ " ++ showBle b, { s with w := w, objs := (name, .ble b) :: s.objs.filter (·.1 ≠ name) })
   | ["env", "inject", rid, pipe, data] => do
     let rid ← parseNat rid; let pipe ← parseNat pipe; let data ← unhex data
     some ("ok ~ -", { s with w := s.w.inject rid pipe data })
@@ -219,6 +256,10 @@ def sessStep (s : Sess) (toks : List String) : Option (String × Sess) :=
       let (res, d', w') ← rf24Call d s.w rest
       some (res ++ " ~ " ++ showRf24 d',
             { s with w := w', objs := s.objs.map fun (n, o) => if n = name then (n, .rf d') else (n, o) })
+    | some (.ble b) =>
+      let (res, b', w') ← bleCall b s.w rest
+      some (res ++ " ~ " ++ showBle b',
+            { s with w := w', objs := s.objs.map fun (n, o) => if n = name then (n, .ble b') else (n, o) })
   | _ => none
 
 def splitOps (toks : List String) : List (List String) :=
